@@ -63,7 +63,12 @@ Proof.
     split; f_equal; try (f_equal; lra); lra.
   - intros [Hm Hv] [p1 p2 p3]. cbn [vx vy vz].
     injection Hm as M1 M2 M3 M4 M5 M6 M7 M8 M9. injection Hv as V1 V2 V3.
-    f_equal; nsatz.
+    pose proof (f_equal (Rmult p1) M1) as A1. pose proof (f_equal (Rmult p1) M2) as A2.
+    pose proof (f_equal (Rmult p1) M3) as A3. pose proof (f_equal (Rmult p2) M4) as A4.
+    pose proof (f_equal (Rmult p2) M5) as A5. pose proof (f_equal (Rmult p2) M6) as A6.
+    pose proof (f_equal (Rmult p3) M7) as A7. pose proof (f_equal (Rmult p3) M8) as A8.
+    pose proof (f_equal (Rmult p3) M9) as A9.
+    f_equal; lra.
 Qed.
 
 Definition idR : M3 R := idm RS.
@@ -80,23 +85,6 @@ Proof.
   unfold commute_cond, idR, idm, ex, ey, ez, to_main, mvec, tvec, mmul, mmul3, vplus, vscale, dot, transpose, vmap, scal; rs.
   split; [split; f_equal; try f_equal; ring|].
   intros [p1 p2 p3]; cbn [vx vy vz]. f_equal; ring.
-Qed.
-
-(* the condition cannot be dropped: two quarter turns about different axes *)
-Theorem compose_not_mcnp_composition_in_general :
-  exists o1 b1 o2 b2 o b p,
-    rotation b1 /\ rotation b2 /\
-    compose_transform RS (tr12 o1 b1) (tr12 o2 b2) = Some (tr12 o b) /\
-    to_main o b p <> to_main o2 b2 (to_main o1 b1 p).
-Proof.
-  exists (mkV 0 0 0), (mkV (mkV 0 1 0) (mkV (-1) 0 0) (mkV 0 0 1)),
-         (mkV 0 0 0), (mkV (mkV 1 0 0) (mkV 0 0 1) (mkV 0 (-1) 0)).
-  eexists _, _, (mkV 1 0 0).
-  split; [| split; [| split; [apply compose_tr12|]]].
-  - unfold rotation, rows_orthonormal, det, cross, dot; cbn [vx vy vz]. repeat split; ring.
-  - unfold rotation, rows_orthonormal, det, cross, dot; cbn [vx vy vz]. repeat split; ring.
-  - unfold to_main, mvec, mmul, mmul3, vplus, vscale, dot, transpose, vmap, scal; rs.
-    intros H. injection H as H1 H2 H3. lra.
 Qed.
 
 (* 4. the call sites: CellConversion.develop_lattice (the only caller) *)
